@@ -34,8 +34,9 @@ Definition mon_eds (sn : eds_snapshot) (obs : eds_obs) : list N :=
                                        | OUpdate e' => N.eqb (e_tmpl_hash e') (r_tmpl_hash a) &&
                                                        annots_eqb (e_annots e') (fst (clear_canary_annots (e_annots e)))
                                        | _ => true end) (eo_writes obs)) 11 ++
-            (* completeness: while the template is still the failed one and no write is rejected, both writes happen *)
-            code_if (N.eqb (e_tmpl_hash e) (r_tmpl_hash a) || es_fail_status sn || es_fail_update sn ||
+            (* completeness: while the template is still the failed one, the replica sets could be listed and no write is
+               rejected, both writes happen *)
+            code_if (N.eqb (e_tmpl_hash e) (r_tmpl_hash a) || es_fail_status sn || es_fail_update sn || es_fail_list_rs sn ||
                      negb (Nat.eqb (length (es_fail_rs_delete sn)) 0) || eo_panic obs ||
                      (existsb (fun w => match w with OStatus _ => true | _ => false end) (eo_writes obs) &&
                       existsb (fun w => match w with OUpdate _ => true | _ => false end) (eo_writes obs))) 12
